@@ -2093,8 +2093,11 @@ class TargetRegistry:
         self.register(object)
         self.register(dict, get=operator.getitem)
         self.register(dict, keys=dict.keys)
-        self.register(list, get=_get_sequence_item)
-        self.register(tuple, get=_get_sequence_item)
+        # (keys=False: the children of a sequence are its items, also for a
+        # subclass whose instances have a __dict__, e.g. a namedtuple subclass
+        # without __slots__)
+        self.register(list, get=_get_sequence_item, keys=False)
+        self.register(tuple, get=_get_sequence_item, keys=False)
         self.register(OrderedDict, get=operator.getitem)
         self.register(OrderedDict, keys=OrderedDict.keys)
         self.register(_AbstractIterable, iterate=iter)
